@@ -149,6 +149,7 @@ func c14Explore(rep *vrep.Report, seed int64, cfg c14Cfg, flipStates map[string]
 	var states, transitions int64 = 1, 0
 	maxDepth := 0
 	var lastHist []c14Op
+	capHit := false
 	viol := func(kind string, n node, op c14Op, desc string) {
 		rep.Violation("C14/"+kind, fmt.Sprintf("cfg=%+v after %v then %v: %s", cfg, n.hist, op, desc),
 			map[string]interface{}{"cfg": cfg, "history": append(append([]c14Op{}, n.hist...), op)})
@@ -157,6 +158,12 @@ func c14Explore(rep *vrep.Report, seed int64, cfg c14Cfg, flipStates map[string]
 		return r.opened[k] || (r.registered && cfg.C < k && k <= cfg.C+cfg.W+len(r.opened))
 	}
 	for len(frontier) > 0 {
+		if rep.NViolations() > 0 {
+			// something is already reported for this run: no need to explore the rest of a state space that a
+			// broken store may have made much larger
+			rep.NotExhaustive("exploration stopped after the first violations")
+			break
+		}
 		n := frontier[0]
 		frontier = frontier[1:]
 		if len(n.hist) > maxDepth {
@@ -217,7 +224,19 @@ func c14Explore(rep *vrep.Report, seed int64, cfg c14Cfg, flipStates map[string]
 					nr.centre = op.K
 				}
 			case "push":
+				chainBefore := c02StoredCounter(R, g, s)
 				res := R.pushOpen(pushes[op.K-1])
+				// "without disturbing the log path": a push open never moves the stored chain key of the sender, and
+				// opening the same payload again changes nothing
+				if chainAfter := c02StoredCounter(R, g, s); chainAfter != chainBefore {
+					viol("push-open-moved-the-chain-key", n, op, fmt.Sprintf("the sender's stored chain-key counter went from %d to %d during a push open", chainBefore, chainAfter))
+				}
+				if res.ok {
+					again := ds.clone()
+					if r2 := R0.onDS(again).pushOpen(pushes[op.K-1]); !r2.ok || again.dump() != ds.dump() {
+						viol("push-open-not-idempotent", n, op, fmt.Sprintf("opening the same push payload a second time: ok=%v, datastore changed=%v", r2.ok, again.dump() != ds.dump()))
+					}
+				}
 				inRef := nref.registered && nref.centre-cfg.Refs <= op.K && op.K <= nref.centre+cfg.Refs-1
 				must := logOpenable(nref, op.K) && inRef
 				rep.Eval(fmt.Sprintf("push/log-openable=%v/in-ref-window=%v/ok=%v/err=%s", logOpenable(nref, op.K), inRef, res.ok, res.err))
@@ -257,6 +276,14 @@ func c14Explore(rep *vrep.Report, seed int64, cfg c14Cfg, flipStates map[string]
 			}
 			seen[key] = true
 			states++
+			if states > 60000 {
+				// far beyond what any configuration reaches on a store whose push opens are idempotent: stop expanding
+				if !capHit {
+					capHit = true
+					rep.NotExhaustive(fmt.Sprintf("C14 cfg %+v: more than 60000 distinct datastore states; exploration of this configuration stopped", cfg))
+				}
+				continue
+			}
 			nh := append(append([]c14Op{}, n.hist...), op)
 			lastHist = nh
 			frontier = append(frontier, node{ds: ds, ref: newRefs, hist: nh})
